@@ -424,7 +424,9 @@ theorem tryWrite_numbers (w : World) (h : Nat) (x : WrH) (p : Hex) (i : Nat)
     unfold tryWrite
     have hp' : (hexLen p == 0) = false := by simpa using hp
     have hc' : (w.credits x.fc == 0) = false := by simpa using hc
-    simp only [hp', hs, hc', Bool.false_eq_true, if_false]
+    have hfn : (w.cfg.fixWriterReset && (findSock (w.host! h) x.loc x.rem).isNone) = false := by
+      rw [hf]; simp
+    simp only [hp', hs, hfn, hc', Bool.false_eq_true, if_false]
     have hf' : findSock (({ w with fcs := setAt w.fcs x.fc (· - 1) } : World).host! h) x.loc x.rem = some i := hf
     rw [hf']
     rfl
@@ -451,26 +453,43 @@ theorem tryWrite_numbers (w : World) (h : Nat) (x : WrH) (p : Hex) (i : Nat)
     rw [heq]
     exact netSend_refused w1 h e (fun id => by simp [e]) hr
 
-/-- writes that do not reach the network: nothing is sent, no sequence number is used. -/
+/-- writes that do not reach the network: nothing is sent, no sequence number is used.  With the repair
+    of F-C04-1 (`fixWriterReset`) a missing socket is noticed before the credit check — whatever the
+    credit count, and without taking a credit; before it, only a write that still had a credit found out. -/
 theorem tryWrite_nosend (w : World) (h : Nat) (x : WrH) (p : Hex) :
     (hexLen p = 0 → w.tryWrite h x p = (w, "ok 0")) ∧
     (hexLen p ≠ 0 → x.shutdown = true → w.tryWrite h x p = (w, "err brokenpipe")) ∧
     (hexLen p ≠ 0 → x.shutdown = false → w.credits x.fc = 0 →
+        (w.cfg.fixWriterReset = false ∨ (findSock (w.host! h) x.loc x.rem).isSome) →
         w.tryWrite h x p = (w.tag "nocredit", "err wouldblock")) ∧
     (hexLen p ≠ 0 → x.shutdown = false → w.credits x.fc ≠ 0 → findSock (w.host! h) x.loc x.rem = none →
-        w.tryWrite h x p = ({ w with fcs := setAt w.fcs x.fc (· - 1) }, "err brokenpipe")) := by
-  refine ⟨fun hp => ?_, fun hp hs => ?_, fun hp hs hc => ?_, fun hp hs hc hf => ?_⟩
+        w.cfg.fixWriterReset = false →
+        w.tryWrite h x p = ({ w with fcs := setAt w.fcs x.fc (· - 1) }, "err brokenpipe")) ∧
+    (hexLen p ≠ 0 → x.shutdown = false → findSock (w.host! h) x.loc x.rem = none →
+        w.cfg.fixWriterReset = true → w.tryWrite h x p = (w, "err brokenpipe")) := by
+  refine ⟨fun hp => ?_, fun hp hs => ?_, fun hp hs hc hx => ?_, fun hp hs hc hf hfx => ?_, fun hp hs hf hfx => ?_⟩
   · unfold tryWrite; simp [hp]
   · have hp' : (hexLen p == 0) = false := by simpa using hp
     unfold tryWrite; simp [hp', hs]
   · have hp' : (hexLen p == 0) = false := by simpa using hp
-    unfold tryWrite; simp [hp', hs, hc]
+    have hfn : (w.cfg.fixWriterReset && (findSock (w.host! h) x.loc x.rem).isNone) = false := by
+      rcases hx with e | e
+      · simp [e]
+      · cases hfs : findSock (w.host! h) x.loc x.rem with
+        | none => simp [hfs] at e
+        | some i => simp
+    unfold tryWrite; simp [hp', hs, hfn, hc]
   · have hp' : (hexLen p == 0) = false := by simpa using hp
     have hc' : (w.credits x.fc == 0) = false := by simpa using hc
     have hf' : findSock (({ w with fcs := setAt w.fcs x.fc (· - 1) } : World).host! h) x.loc x.rem = none := hf
+    have hfn : (w.cfg.fixWriterReset && (findSock (w.host! h) x.loc x.rem).isNone) = false := by simp [hfx]
     unfold tryWrite
-    simp only [hp', hs, hc', Bool.false_eq_true, if_false]
+    simp only [hp', hs, hfn, hc', Bool.false_eq_true, if_false]
     rw [hf']
+  · have hp' : (hexLen p == 0) = false := by simpa using hp
+    have hfn : (w.cfg.fixWriterReset && (findSock (w.host! h) x.loc x.rem).isNone) = true := by simp [hfx, hf]
+    unfold tryWrite
+    simp only [hp', hs, hfn, Bool.false_eq_true, if_false, if_true]
 
 /-- … in each of these cases the host table (every `next_send_seq`) and every link are as before. -/
 theorem tryWrite_nosend_frame (w : World) (h : Nat) (x : WrH) (p : Hex)
@@ -482,13 +501,26 @@ theorem tryWrite_nosend_frame (w : World) (h : Nat) (x : WrH) (p : Hex)
   · cases hs : x.shutdown with
     | true => rw [hc.2.1 hp hs]; exact ⟨rfl, rfl⟩
     | false =>
-      by_cases hcr : w.credits x.fc = 0
-      · rw [hc.2.2.1 hp hs hcr]; exact ⟨C04.hosts_tag _ _, WorldLinks.links_tag _ _⟩
-      · rcases hno with e | e | e | e
-        · exact absurd e hp
-        · rw [hs] at e; exact absurd e (by simp)
-        · exact absurd e hcr
-        · rw [hc.2.2.2 hp hs hcr e]; exact ⟨rfl, rfl⟩
+      cases hfx : w.cfg.fixWriterReset with
+      | true =>
+        cases hfs : findSock (w.host! h) x.loc x.rem with
+        | none => rw [hc.2.2.2.2 hp hs hfs hfx]; exact ⟨rfl, rfl⟩
+        | some i =>
+          by_cases hcr : w.credits x.fc = 0
+          · rw [hc.2.2.1 hp hs hcr (Or.inr (by simp [hfs]))]; exact ⟨C04.hosts_tag _ _, WorldLinks.links_tag _ _⟩
+          · rcases hno with e | e | e | e
+            · exact absurd e hp
+            · rw [hs] at e; exact absurd e (by simp)
+            · exact absurd e hcr
+            · rw [hfs] at e; exact absurd e (by simp)
+      | false =>
+        by_cases hcr : w.credits x.fc = 0
+        · rw [hc.2.2.1 hp hs hcr (Or.inl hfx)]; exact ⟨C04.hosts_tag _ _, WorldLinks.links_tag _ _⟩
+        · rcases hno with e | e | e | e
+          · exact absurd e hp
+          · rw [hs] at e; exact absurd e (by simp)
+          · exact absurd e hcr
+          · rw [hc.2.2.2.1 hp hs hcr e hfx]; exact ⟨rfl, rfl⟩
 
 /-- the shape of a world after a numbered send from socket `i` of host `h`. -/
 theorem sent_shape (w0 : World) (h i : Nat) (e : Env) (hh : h < w0.hosts.length) :
